@@ -242,6 +242,20 @@ func (ex *Explorer) query(key string, toMs int, extra *Term, wantModel bool) (sa
 	return r, m, why
 }
 
+// feasQuery is a feasibility query; when the primary encoding cannot express a term
+// (e.g. bit operations in the integer encoding) the other encoding is asked.
+func (ex *Explorer) feasQuery(extra *Term) (satResult, map[string]uint64, string) {
+	r, m, why := ex.query(ex.primaryKey(), ex.cfg.FeasMs, extra, true)
+	if r == resUnknown && strings.HasPrefix(why, "unsupported") {
+		alt := "z3-bv"
+		if ex.th == thBV {
+			alt = "z3-int"
+		}
+		r, m, why = ex.query(alt, ex.cfg.FeasMs, extra, true)
+	}
+	return r, m, why
+}
+
 func (ex *Explorer) evalUnderModel(t *Term) (bool, bool) {
 	if !ex.modelOK {
 		return false, false
@@ -305,7 +319,7 @@ func (ex *Explorer) decide(c *Term) bool {
 		if !v {
 			other = c
 		}
-		r, m, _ := ex.query(ex.primaryKey(), ex.cfg.FeasMs, other, true)
+		r, m, _ := ex.feasQuery(other)
 		ofeas := r != resUnsat
 		if r == resUnknown {
 			ex.w.res.Unknown++
@@ -330,7 +344,7 @@ func (ex *Explorer) decide(c *Term) bool {
 		}
 		return take
 	}
-	rT, mT, _ := ex.query(ex.primaryKey(), ex.cfg.FeasMs, c, true)
+	rT, mT, _ := ex.feasQuery(c)
 	if rT == resUnknown {
 		ex.w.res.Unknown++
 	}
@@ -338,13 +352,13 @@ func (ex *Explorer) decide(c *Term) bool {
 	var rF satResult
 	var mF map[string]uint64
 	if feasT && rT == resSat {
-		rF, mF, _ = ex.query(ex.primaryKey(), ex.cfg.FeasMs, nc, true)
+		rF, mF, _ = ex.feasQuery(nc)
 	} else if !feasT {
 		// pc is satisfiable (invariant), so ¬c must be
 		rF = resSat
 		mF = nil
 	} else {
-		rF, mF, _ = ex.query(ex.primaryKey(), ex.cfg.FeasMs, nc, true)
+		rF, mF, _ = ex.feasQuery(nc)
 	}
 	if rF == resUnknown {
 		ex.w.res.Unknown++
@@ -582,7 +596,7 @@ func (ex *Explorer) assume(cond value) {
 			ex.pc = append(ex.pc, c)
 			return
 		}
-		r, m, _ := ex.query(ex.primaryKey(), ex.cfg.FeasMs, c, true)
+		r, m, _ := ex.feasQuery(c)
 		if r == resUnsat {
 			panic(pathAbort{"assume infeasible"})
 		}
@@ -654,7 +668,7 @@ func (w *worker) runPath(fn *ssa.Function, item workItem) (newWork []workItem) {
 		for _, c := range ex.covers {
 			if _, ok := res.Covers[c]; !ok {
 				if mv == nil {
-					mv, _ = ex.currentModel()
+					mv, _ = ex.tryModel()
 				}
 				if mv != nil {
 					res.Covers[c] = CoverWitness{Label: c, Model: mv}
@@ -663,7 +677,7 @@ func (w *worker) runPath(fn *ssa.Function, item workItem) (newWork []workItem) {
 		}
 		if len(res.Samples) < 3 && len(ex.nondets) > 0 {
 			if mv == nil {
-				mv, _ = ex.currentModel()
+				mv, _ = ex.tryModel()
 			}
 			if mv != nil {
 				res.Samples = append(res.Samples, mv)
@@ -708,7 +722,11 @@ func describePanicValue(v value) string {
 func (ex *Explorer) recordPanic(msg string) {
 	defer func() {
 		if r := recover(); r != nil {
-			if _, ok := r.(pathStop); !ok {
+			switch r.(type) {
+			case pathStop:
+			case pathAbort:
+				ex.w.res.Aborted++
+			default:
 				panic(r)
 			}
 		}
@@ -722,7 +740,11 @@ func (ex *Explorer) recordPanic(msg string) {
 func (ex *Explorer) handleBudget(p budgetExceeded) {
 	defer func() {
 		if r := recover(); r != nil {
-			if _, ok := r.(pathStop); !ok {
+			switch r.(type) {
+			case pathStop:
+			case pathAbort:
+				ex.w.res.Aborted++
+			default:
 				panic(r)
 			}
 		}
@@ -884,4 +906,17 @@ func (ex *Explorer) replayK() (uint64, bool) {
 		return ex.prefix[i].K, true
 	}
 	return 0, false
+}
+
+// tryModel is currentModel outside the path's recover scope.
+func (ex *Explorer) tryModel() (mv []NondetVal, ok bool) {
+	defer func() {
+		if r := recover(); r != nil {
+			if _, isAbort := r.(pathAbort); !isAbort {
+				panic(r)
+			}
+			mv, ok = nil, false
+		}
+	}()
+	return ex.currentModel()
 }
